@@ -13,13 +13,15 @@ PROPERTY = "C06"
 RULE = (
     "chains: a register of size 1-12, 0-5 lets and an alias chain of depth 1-5 mixing whole / single / strided-slice "
     "forms with literal, defaulted or let-valued bounds; EVERY valid index into EVERY alias (and the register) is "
-    "written as `X ref` at top level, inside nested blocks, and reached through macros (alias passed as register "
+    "written as `X ref` at top level, inside nested blocks (subcircuit blocks among them), and reached through macros (alias passed as register "
     "argument and indexed inside; alias indexed by a parameter).  The reference index (element i of "
     "src[start:stop:step] is element start+i*step of src, composed along the chain) must be what every consumer "
     "reports: NamedQubit.resolve_qubit(); fill_in_map(fill_in_let(c)) (rewrites to the fundamental register's "
-    "qubit idx and leaves the meaning unchanged); get_used_qubit_indices; the pyGSTi label; and the emulator - "
+    "qubit idx at every depth - no reference is left on an alias - and leaves the meaning unchanged); get_used_qubit_indices; the pyGSTi label; and the emulator - "
     "`prepare_all; X ref; measure_all` puts probability 1 on integer 1 << idx (up to 8 sampled references per case, "
-    "register size <= 8); macro calls are also analysed unexpanded (get_used_qubit_indices binds the arguments); with "
+    "register size <= 8; through run_jaqal_circuit and through the backend's job interface on the expanded circuit); "
+    "macro calls are also analysed unexpanded, one by one and several together in a circuit that holds nothing else "
+    "(get_used_qubit_indices binds the arguments); with "
     "a drawn override dictionary the same references are resolved after fill_in_let(c, ov) and must follow the "
     "overriding values; every register and alias reports the reference size and rejects the index equal to it.  two-level: ALL chains register(n) -> slice -> slice -> index for n <= 4 (quick) / n <= 7 "
     "(thorough) are enumerated exhaustively for resolve_qubit, fill_in_map and used-qubits.  Non-trivial = chain "
@@ -90,6 +92,8 @@ def chains(case):
     body = [["g", "X", [a]] for a, _k in refs]
     expected = [k for _a, k in refs]
     nested = [["seq", [["par", [["g", "X", [a]]]]]] for a, _k in refs[:: max(1, len(refs) // 6)]]
+    # ... and inside subcircuit blocks (with and without a count)
+    nested += [["sub", None if i % 2 else 3, [["g", "X", [a]], ["par", [["g", "X", [a]]]]]] for i, (a, _k) in enumerate(refs[1 :: max(1, len(refs) // 3)][:3])]
     macros = [
         {"name": "viaarr", "params": ["p", "o"], "body": ["seq", [["g", "X", [["ix", "p", "o"]]]]]},
         {"name": "viaq", "params": ["p"], "body": ["seq", [["g", "X", [["id", "p"]]]]]},
@@ -164,6 +168,9 @@ def chains(case):
         q = _qubit_of(s)
         if not isinstance(q, NamedQubit) or not q.alias_from.fundamental or q.alias_from.name != regname or q.alias_index != k:
             raise Violation("fill_in_map", f"reference {a} rewritten to {q!r}, expected {regname}[{k}]\n--- program:\n{text}")
+    left = extract.find_objects(f, lambda x: isinstance(x, NamedQubit) and not x.alias_from.fundamental, include_macros=False, include_header=False)
+    if left:
+        raise Violation("fill_in_map", f"references left on an alias after fill_in_map (at any depth, subcircuit blocks included): {left[:3]}\n--- program:\n{text}", where="alias-left")
     try:
         m0, m1 = extract.meaning(c), extract.meaning(f)
         mref = ref.__class__(prog).meaning()
@@ -201,6 +208,19 @@ def chains(case):
         st_, u = guard(get_used_qubit_indices, s_obj, what="get_used_qubit_indices(macro call)")
         if st_ == "err" or {kk: set(v) for kk, v in dict(u).items() if v} != {regname: {k}}:
             raise Violation("used-qubits", f"macro call {s_model}: {u}, expected {{{regname!r}: {{{k}}}}}\n--- program:\n{text}", where="macro-call")
+    # several macro calls analysed TOGETHER (one walk over a circuit that holds nothing else): the
+    # union of what each call uses - the same macro with other numbers is another call
+    if calls:
+        picks = sorted({p_ % len(calls) for p_ in case["pick"][:4]})
+        p3 = dict(prog)
+        p3["body"] = [calls[i] for i in picks] if len(picks) % 2 else [["seq", [calls[i] for i in picks]]]
+        t3 = render.to_text(p3)
+        st_, c3 = guard(parse, t3, inject_pulses=nat, what="parse")
+        if st_ == "ok":
+            st_, u3 = guard(get_used_qubit_indices, c3, what="get_used_qubit_indices(circuit of macro calls)")
+            want3 = {call_expected[i] for i in picks}
+            if st_ == "err" or set(dict(u3).get(regname, ())) != want3:
+                raise Violation("used-qubits", f"circuit of macro calls only: {u3}, expected {sorted(want3)}\n--- program:\n{t3}", where="macro-calls-together")
     # resolve_qubit(context): the macro body's own qubit object `p[o]`, resolved under every binding
     body_q = _qubit_of(c.macros["viaarr"].body.statements[0])
     for nm, el in reglike:
@@ -263,6 +283,17 @@ def chains(case):
             p = np.asarray(sc.simulated_probability_by_int)
             if abs(p[1 << k] - 1) > 1e-9:
                 raise Violation("emulator-acts-on-wrong-qubit", f"statement {s}: expected qubit {k}; outcome probabilities {dict((i, round(float(x), 3)) for i, x in enumerate(p) if x > 1e-9)}\n--- program:\n{t2}")
+        # the backend's own job interface on the expanded circuit (aliases still in place)
+        from jaqalpaq.core.algorithm import expand_subcircuits
+        from jaqalpaq.emulator.unitary import UnitarySerializedEmulator
+
+        st_, resj = guard(lambda: UnitarySerializedEmulator()(expand_macros(fill_in_let(expand_subcircuits(c2)))).execute(), what="backend(circuit).execute()")
+        if st_ == "err":
+            raise Violation("emulator-rejected", f"[job interface] {resj}\n--- program:\n{t2}", where="job")
+        for sc, (s, k) in zip(resj.subcircuits, chosen):
+            p = np.asarray(sc.simulated_probability_by_int)
+            if abs(p[1 << k] - 1) > 1e-9:
+                raise Violation("emulator-acts-on-wrong-qubit", f"[backend(circuit).execute()] statement {s}: expected qubit {k}; outcome probabilities {dict((i, round(float(x), 3)) for i, x in enumerate(p) if x > 1e-9)}\n--- program:\n{t2}", where="job")
     depth = 0
     for m in prog["maps"]:
         d, src = 1, m[1]
